@@ -155,3 +155,58 @@ fn shared_edge_case(py0: i32) {
 #[kani::proof] #[kani::unwind(6)] fn c04_shared_edge_g2_y2() { shared_edge_case(2); }
 #[kani::proof] #[kani::unwind(6)] fn c04_shared_edge_g2_y3() { shared_edge_case(3); }
 #[kani::proof] #[kani::unwind(6)] fn c04_shared_edge_g2_y4() { shared_edge_case(4); }
+
+// ---- thorough tier: 3x3-pixel grid, one harness per position of the first vertex (7 x 7) ----
+
+pub fn fill_counts3(k: [i32; 6]) -> [[u8; 3]; 3] {
+    let vs = [
+        vertex(pt3(k[0] as f32 * 0.5, k[1] as f32 * 0.5, 1.0), ()),
+        vertex(pt3(k[2] as f32 * 0.5, k[3] as f32 * 0.5, 1.0), ()),
+        vertex(pt3(k[4] as f32 * 0.5, k[5] as f32 * 0.5, 1.0), ()),
+    ];
+    let mut cov = [[0u8; 3]; 3];
+    let mut last_y: i64 = -1;
+    let mut ok = true;
+    tri_fill(vs, |sl| {
+        let y = sl.y;
+        if (y as i64) <= last_y { ok = false; }
+        last_y = y as i64;
+        let n = sl.vs.count();
+        if n != sl.xs.end.saturating_sub(sl.xs.start) { ok = false; }
+        if y >= 3 || sl.xs.end > 3 { ok = false; }
+        else { for x in sl.xs { cov[y][x] += 1; } }
+    });
+    assert!(ok);
+    cov
+}
+
+fn cover_case3(x0: i32, y0: i32) {
+    let k = [x0, y0, lat(0, 6), lat(0, 6), lat(0, 6), lat(0, 6)];
+    let area2 = edge(k[0], k[1], k[2], k[3], k[4], k[5]);
+    kani::assume(area2 != 0);
+    let cov = fill_counts3(k);
+    let mut any_in = false;
+    for j in 0..3 {
+        for i in 0..3 {
+            let (inside, outside) = classify(k, i, j);
+            let c = cov[j as usize][i as usize];
+            if inside { assert!(c == 1); any_in = true; }
+            if outside { assert!(c == 0); }
+            assert!(c <= 1);
+        }
+    }
+    kani::cover!(any_in, "a strictly-inside centre");
+}
+
+macro_rules! g3 {
+    ($($name:ident: $x:expr, $y:expr;)*) => { $( #[kani::proof] #[kani::unwind(8)] fn $name() { cover_case3($x, $y); } )* };
+}
+g3! {
+    c04_cover_g3_00: 0,0; c04_cover_g3_10: 1,0; c04_cover_g3_20: 2,0; c04_cover_g3_30: 3,0; c04_cover_g3_40: 4,0; c04_cover_g3_50: 5,0; c04_cover_g3_60: 6,0;
+    c04_cover_g3_01: 0,1; c04_cover_g3_11: 1,1; c04_cover_g3_21: 2,1; c04_cover_g3_31: 3,1; c04_cover_g3_41: 4,1; c04_cover_g3_51: 5,1; c04_cover_g3_61: 6,1;
+    c04_cover_g3_02: 0,2; c04_cover_g3_12: 1,2; c04_cover_g3_22: 2,2; c04_cover_g3_32: 3,2; c04_cover_g3_42: 4,2; c04_cover_g3_52: 5,2; c04_cover_g3_62: 6,2;
+    c04_cover_g3_03: 0,3; c04_cover_g3_13: 1,3; c04_cover_g3_23: 2,3; c04_cover_g3_33: 3,3; c04_cover_g3_43: 4,3; c04_cover_g3_53: 5,3; c04_cover_g3_63: 6,3;
+    c04_cover_g3_04: 0,4; c04_cover_g3_14: 1,4; c04_cover_g3_24: 2,4; c04_cover_g3_34: 3,4; c04_cover_g3_44: 4,4; c04_cover_g3_54: 5,4; c04_cover_g3_64: 6,4;
+    c04_cover_g3_05: 0,5; c04_cover_g3_15: 1,5; c04_cover_g3_25: 2,5; c04_cover_g3_35: 3,5; c04_cover_g3_45: 4,5; c04_cover_g3_55: 5,5; c04_cover_g3_65: 6,5;
+    c04_cover_g3_06: 0,6; c04_cover_g3_16: 1,6; c04_cover_g3_26: 2,6; c04_cover_g3_36: 3,6; c04_cover_g3_46: 4,6; c04_cover_g3_56: 5,6; c04_cover_g3_66: 6,6;
+}
